@@ -100,11 +100,15 @@ def check(case):
             raise PropertyViolation("after-second-inplace-update:" + v.bucket, "after a second in-place parameter update (back to the first values): " + v.message, v.detail)
     sparse_history(case)
     # lifecycle: evaluated state -> reinitialize_parameters() (new parameter objects) -> same parameters written again -> everything holds again
-    gen.reinit_and_set(state, case)
+    mir = gen.mirrored(case)
+    gen.reinit_and_set(state, mir)
     try:
-        check_round(case, state)
+        check_round(mir, state)
     except PropertyViolation as v:
-        raise PropertyViolation("after-reinitialise:" + v.bucket, "after reinitialize_parameters() and writing the parameters again: " + v.message, v.detail)
+        raise PropertyViolation("after-reinitialise:" + v.bucket, "after reinitialize_parameters() and writing OTHER parameters into the new parameter objects: " + v.message, v.detail)
+    gen.set_net(state.rbm_am, case["am"])
+    if case.get("ph"):
+        gen.set_net(state.rbm_ph, case["ph"])
     shared_module(case)
     if case.get("am3"):
         from qucumber.rbm import BinaryRBM
